@@ -45,9 +45,15 @@ Proof. exact c18_ht. Qed.
 Example C18_example : tabstops (init 20 2) = (8 :: 16 :: nil)%list.
 Proof. vm_compute. reflexivity. Qed.
 
+(* HTS immediately undone by TBC at the same cursor position (also the pending-wrap column): the stop set is what it was
+   without a stop at that column *)
+Theorem C18_HTS_then_TBC : forall (a : astate) t, nmem t (a_tabs (a_tbc (a_hts a) None)) = negb (t =? ax a) && nmem t (a_tabs a).
+Proof. exact c18_hts_then_tbc. Qed.
+
 Print Assumptions C18_code_refines_spec.
 Print Assumptions C18_sorted_scan_finds_least_stop.
 Print Assumptions C18_default_stops.
 Print Assumptions C18_new_screen_of_the_code.
 Print Assumptions C18_HTS_TBC.
 Print Assumptions C18_HT.
+Print Assumptions C18_HTS_then_TBC.
